@@ -125,6 +125,8 @@ def _locate_droplets_in_mask_cartesian(mask: ScalarField) -> Emulsion:
     volumes = np.asanyarray(volumes) * cell_volume
 
     # connect clusters linked viaperiodic boundary conditions
+    labels_orig = labels.copy()  # labels of the clusters before they are combined
+    offsets = np.zeros((num_labels, grid.num_axes))  # shifts applied to the clusters
     for ax in np.flatnonzero(grid.periodic):  # look at all periodic axes
         # compile list of all boundary points connected along the current axis
         low: list[list[int] | np.ndarray] = []
@@ -146,7 +148,11 @@ def _locate_droplets_in_mask_cartesian(mask: ScalarField) -> Emulsion:
                 # weighted averages of the center of mass
                 v_l, v_h = volumes[i_l - 1], volumes[i_h - 1]
                 pos_l, pos_h = positions[i_l - 1], positions[i_h - 1]
-                pos_h[ax] -= grid.shape[ax]  # wrap around the upper point
+                # wrap around the upper point, respecting shifts from previous merges
+                shift = offsets[labels_orig[l] - 1] - offsets[labels_orig[h] - 1]
+                shift[ax] -= grid.shape[ax]
+                offsets[np.unique(labels_orig[labels == i_h]) - 1] += shift
+                pos_h += shift
                 pos = (pos_l * v_l + pos_h * v_h) / (v_l + v_h)
                 # update both clusters with the new data
                 positions[i_h - 1] = positions[i_l - 1] = pos
